@@ -418,3 +418,45 @@ class Check:
             return 1
         print("OK property=%s tier=%s seed=%d wall=%.1fs nonconforming=%d" % (self.prop, self.tier, self.seed, wall, len(self.nonconf)))
         return 0
+
+
+def cached(name, key_parts, producer):
+    """Family-level cache: properties served by the same log share one harness + TLC pass.
+    key_parts must include the vh binary hash (embeds /repo's current sources), spec hash, tier, seed.
+    producer(dir) must fill dir and return a JSON-able result. Returns (dir, result, was_cached)."""
+    key = hashlib.sha256(json.dumps([name] + list(key_parts), sort_keys=True).encode()).hexdigest()[:24]
+    root = os.path.join(WORK, "cache")
+    os.makedirs(root, exist_ok=True)
+    # prune: entries older than 3 h
+    now = time.time()
+    for d in os.listdir(root):
+        p = os.path.join(root, d)
+        try:
+            if now - os.path.getmtime(p) > 3 * 3600:
+                shutil.rmtree(p, ignore_errors=True)
+        except OSError:
+            pass
+    d = os.path.join(root, name + "-" + key)
+    with Lock("cache-" + name):
+        rj = os.path.join(d, "result.json")
+        if os.path.exists(rj):
+            with open(rj) as f:
+                return d, json.load(f), True
+        shutil.rmtree(d, ignore_errors=True)
+        os.makedirs(d)
+        try:
+            res = producer(d)
+        except BaseException:
+            shutil.rmtree(d, ignore_errors=True)
+            raise
+        with open(rj, "w") as f:
+            json.dump(res, f)
+        return d, res, False
+
+
+def spec_hash(*fams):
+    h = hashlib.sha256()
+    for fam in ["common"] + list(fams):
+        h.update(sha_tree(os.path.join(SPEC, fam)).encode())
+    h.update(sha_file(os.path.join(VERIF, "bin", "vlib.py")).encode())
+    return h.hexdigest()[:16]
